@@ -12,6 +12,7 @@ use crate::trace::Trace;
 
 pub mod c01;
 pub mod c04;
+pub mod c18;
 
 #[derive(Debug, Clone, PartialEq, Serialize, Deserialize)]
 pub struct Violation {
@@ -92,8 +93,9 @@ pub fn get(id: &str) -> Option<Box<dyn Check>> {
     match id {
         "C01" => Some(Box::new(c01::C01)),
         "C04" => Some(Box::new(c04::C04)),
+        "C18" => Some(Box::new(c18::C18)),
         _ => None,
     }
 }
 
-pub const ALL: &[&str] = &["C01", "C04"];
+pub const ALL: &[&str] = &["C01", "C04", "C18"];
